@@ -102,17 +102,31 @@ def nontrivial(p, line):
     return p["outcome"] == "ok" and p["tag"].endswith("-B")
 
 
+def distorted_counts(per_mode):
+    """Evidence: how many pairs are distorted crystals and how many of those reach the band between symprec and 2 symprec
+    of the pivot-anchored residual (where only the doubled rough tolerance of the search keeps an operation)."""
+    reqs, _ = per_mode.get("meta", ([], []))
+    b = [l for l in reqs if (pipe.seg(l, "tsteps") or "").find("distort") >= 0 and "-B ;" in l[:40]]
+    return {"distorted_pairs": len(b), "distorted_pairs_in_rough_band": sum(1 for l in b if "distort-rough" in pipe.seg(l, "tsteps"))}
+
+
 def run(tier, seed):
-    return pipe.run_property("C04", tier, seed, ["meta"], PROPS,
-                             {"rule": "170 (quick) / 1590 (thorough, every Hall setting x 3) pairs: base crystal A and a random word of 1-5 re-descriptions B "
+    def extra(per_mode):
+        info.update(distorted_counts(per_mode))
+        return pairs(per_mode)
+    info = dict()
+    info.update({"rule": "170 (quick) / 1590 (thorough, every Hall setting x 3) pairs: base crystal A and a random word of 1-5 re-descriptions B "
                                       "(re-basing with entries up to 6, origin shift, rigid rotation, permutation, added lattice vectors, scaling 1e-2..1e3 with symprec, "
-                                      "supercell of index 2..4, mirror image); compared: number (11 enantiomorphic pairs exchanged under mirror), Hall number, Pearson symbol, "
+                                      "supercell of index 2..4, mirror image); plus 90 (quick) / 530 (thorough) pairs of *distorted* crystals (half of the atoms displaced by 0.25-0.45 symprec, "
+                                      "premise validated by a brute-force residual profile: every generating operation fits within 0.8 symprec, pivot-anchored within 1.6 symprec, "
+                                      "nothing else within 1.3 symprec) whose re-description always reorders the atoms; compared: number (11 enantiomorphic pairs exchanged under mirror), Hall number, Pearson symbol, "
                                       "operations per primitive cell, orbit partition through the site map, Wyckoff multiplicity and orientation-free site-symmetry symbol per atom; "
                                       "non-trivial = the re-described member of a pair that returned a dataset",
                               "explanation": "level other: covariance of the specification is proved in Lean (Props/C04.lean: origin shift, added lattice vectors, rigid rotation, scaling, "
                                              "change of basis; mirror-partner table), the statement about the implementation's answers is metamorphic exploration with invariants "
-                                             "extracted by the Lean driver"},
-                             nontrivial, extra=pairs, level="other",
+                                             "extracted by the Lean driver"})
+    return pipe.run_property("C04", tier, seed, ["meta"], PROPS, info,
+                             nontrivial, extra=extra, level="other",
                              trusted=["the generator's site map and re-description record", "premise validation by brute-force symmetry search (Rust)"])
 
 
